@@ -140,7 +140,8 @@ def r_C33c_C34g(root):
                     a = fx.cfg.nodes[d].ast
                     src = _u(a.value) if isinstance(a, ast.Assign) else ""
                     p0 = fn.args.args[0].arg if fn.args.args else "node"
-                    if not (src.endswith("pos_to_linecol(%s.position)" % p0) or src.endswith("pos_to_linecol(node.position)")):
+                    is_call = isinstance(a, ast.Assign) and isinstance(a.value, ast.Call) and callee_name(a.value) == "pos_to_linecol"      # the conversion itself, not `x or pos_to_linecol(...)`
+                    if not (is_call and (src.endswith("pos_to_linecol(%s.position)" % p0) or src.endswith("pos_to_linecol(node.position)"))):
                         okc = False
                         out.append(Finding("C33", "C33.c", M, q, " ".join(ast.unparse(a).split())[:100] if a is not None else kw[f].id, "the %s reported for a failing match processor is not computed from the start of the match (node.position)" % f, witness="use_regexp_group=True, /<<<(.*?)>>>/ with a failing processor"))
                 ob("C33", "C33.c", M, q, "%s of the match processor call" % f, okc)
